@@ -133,22 +133,46 @@ Fixpoint node_eqb (a b : node) : bool :=
   | _, _ => false
   end.
 
+(* cmd_backup.go findParentSnapshot + data.SnapshotFilter.findLatest (group-by host,paths; one host):
+   --force: none; --parent ID: that snapshot, unfiltered; otherwise the latest snapshot whose path list
+   contains every requested path.  snaps: (id, paths, time) *)
+Definition subset (a b : list N) : bool := forallb (fun x => mem x b) a.
+Fixpoint latest (snaps : list (N * list N * N)) (paths : list N) (best : option (N * N)) : option (N * N) :=
+  match snaps with
+  | [] => best
+  | (i, ps, t) :: r =>
+      if match best with Some (_, bt) => t <? bt | None => false end then latest r paths best
+      else if subset paths ps then latest r paths (Some (i, t)) else latest r paths best
+  end.
+Definition select_parent (snaps : list (N * list N * N)) (paths : list N) (force : bool) (explicit : option N)
+  : option N :=
+  if force then None
+  else match explicit with
+       | Some i => Some i
+       | None => option_map fst (latest snaps paths None)
+       end.
+
 (* ---- cases ---- *)
 Inductive case :=
 | CTree (fl : flags) (idx : list N) (src : item) (parent : option node)
         (obs_incr obs_full : node) (ids_equal : bool)
         (incr_complete : bool) (* every content blob of the incremental tree is indexed afterwards *)
-| CSkip (has_parent skip_flag trees_equal : bool) (obs_saved : bool).
+| CSkip (has_parent skip_flag trees_equal : bool) (obs_saved : bool)
+| CParent (snaps : list (N * list N * N)) (paths : list N) (force : bool) (explicit : option N)
+          (obs_parent : option N).
 
 (* verified oracle. codes: 2 = truthful inputs but incremental tree <> forced full tree,
    3 = snapshot kept/omitted against the skip-if-unchanged rule,
-   4 = the incremental snapshot references a data blob that is not in the index *)
+   4 = the incremental snapshot references a data blob that is not in the index,
+   5 = a different parent snapshot was used than the selection rule names *)
 Definition oracle_code (c : case) : nat :=
   match c with
   | CTree fl idx src parent oi of' ids compl =>
       if truthfulb fl src parent && negb (node_eqb oi of' && ids) then 2
       else if negb compl then 4 else 0
   | CSkip hp sf te saved => if Bool.eqb saved (snapshot_saved hp sf te) then 0 else 3
+  | CParent snaps paths force expl obs =>
+      if option_eqb N.eqb obs (select_parent snaps paths force expl) then 0 else 5
   end.
 Definition check_C40 (c : case) : bool := Nat.eqb (oracle_code c) 0.
 
@@ -161,6 +185,7 @@ Definition check_case (c : case) : nat :=
            && Bool.eqb ids (node_eqb oi of')
         then 0%nat else 1%nat
     | CSkip _ _ _ _ => 0%nat
+    | CParent _ _ _ _ _ => 0%nat
     end
   | n => n
   end.
